@@ -1,6 +1,7 @@
 package checks
 
 import (
+	"bytes"
 	"fmt"
 	"sort"
 	"strings"
@@ -298,6 +299,90 @@ func runC16(c *core.Ctx) {
 				}
 			}
 		}
+	}
+
+	// ---- boundary values of the checksum's intermediate state ----
+	// The running polymod after the prefix expansion (and after k data symbols) is steered to special values - 0, 1, 2, all
+	// ones, single bits - by solving for the last six prefix characters (appending six symbols XORs them into the state).
+	// For such prefixes: the valid string must decode, and every single same-kind substitution in the prefix and every
+	// single data substitution must be rejected.
+	{
+		targets := []uint32{0, 1, 2, 3, 0x3fffffff, 1 << 29, 1 << 25, 1 << 24, 0x3b6a57b2, 0x2bc830a3}
+		built := 0
+		ramp := func(n int) []byte {
+			b := make([]byte, n)
+			for i := range b {
+				b[i] = byte(i*53 + 7)
+			}
+			return b
+		}
+		for _, tgt := range targets {
+			for _, stem := range []string{"a", "net", "tiotaprefix"} {
+				// expansion = highs(stem+tail) 0 lows(stem) lows(tail); highs of `..~ are all 3
+				tail := []byte("``````")
+				full := stem + string(tail)
+				vals := bech32.VerifHrpExpand(full)
+				// zero the six last low symbols, then the needed symbols are the state itself
+				for i := 0; i < 6; i++ {
+					vals[len(vals)-6+i] = 0
+				}
+				need := c16Polymod(vals) ^ tgt
+				ok := true
+				for i := 0; i < 6; i++ {
+					sym := byte(need >> uint(5*(5-i)) & 31)
+					if sym == 31 { // 0x7f is not allowed in a prefix
+						ok = false
+					}
+					tail[i] = 0x60 | sym
+				}
+				if !ok {
+					continue
+				}
+				hrp := stem + string(tail)
+				if c16Polymod(bech32.VerifHrpExpand(hrp)) != tgt {
+					c.Abort("cannot steer the prefix state to %#x", tgt)
+					return
+				}
+				built++
+				for _, data := range [][]byte{nil, ramp(3), ramp(20)} {
+					valid, ok := rb.Encode(hrp, data)
+					if !ok {
+						continue
+					}
+					validated++
+					if h, d, err := bech32.Decode(valid); err != nil || h != hrp || !bytes.Equal(d, data) && len(data) > 0 {
+						c.Violate("C16/state-boundary/valid-rejected", fmt.Sprintf("prefix %q puts the running checksum at %#x before the data part: Decode(%q) = %q,%x,%v", hrp, tgt, valid, h, d, err), valid, "", nil)
+						continue
+					}
+					if enc, err := bech32.Encode(hrp, data); err != nil || enc != valid {
+						c.Violate("C16/state-boundary/encode-differs", fmt.Sprintf("Encode(%q) = %q, reference %q", hrp, enc, valid), valid, "", nil)
+					}
+					b := []byte(valid)
+					for i := range b {
+						if i == len(hrp) {
+							continue
+						}
+						orig := b[i]
+						alts := rb.Charset
+						if i < len(hrp) {
+							alts = "`abcdefghijklmnopqrstuvwxyz{|}~" // same kind: the high bits stay 3
+						}
+						for k := 0; k < len(alts); k++ {
+							if alts[k] == orig {
+								continue
+							}
+							b[i] = alts[k]
+							validated++
+							if _, _, err := bech32.Decode(string(b)); err == nil {
+								c.Violate("C16/state-boundary/undetected", fmt.Sprintf("valid %q -> %q (1 substitution, running checksum %#x after the prefix) is accepted by Decode", valid, string(b), tgt), map[string]string{"valid": valid, "corrupted": string(b)}, "", nil)
+							}
+						}
+						b[i] = orig
+					}
+				}
+			}
+		}
+		c.Set("state_boundary_prefixes", int64(built))
 	}
 
 	// ---- binding (i): additivity on the real polymod, every weight-2 pattern, three base vectors ----
